@@ -1286,6 +1286,102 @@ def geohash_unit():
                        'constants': {'_NIEMEYER_CONFIG': ('GV.Geohash.Gen.niemeyerConfigs', 'Dict Nat NCfg')}})
 
 
+# coordinates.py / structures.py / _base.py / multistructures.py :: `__eq__` and `__hash__` of every kind   (C15)
+#
+# a coordinate is the model's record `GV.Obj.Coord`, a single shape the record view of its class (`Model/ObjRec.lean`:
+# the fields under the names the class uses), a multi-shape the model's `GV.Obj.Multi`; `isinstance(other, X)` is decided
+# per instance (`other` of the same class / anything else).  `==` on `Optional`, lists, tuples and sets, the membership
+# relation of a set (hash, then `==`) and the *key* handed to `hash()` are generated from the static types (py2lean
+# `eq_fn` / `mem_fn` / `key_of`).  Abstract: `heq` (`hole == hole'`: a dynamic dispatch on the class of the hole — closed in
+# Props/C15Src by `srcHoleEq`), `bc` (`hole.bounding_coords()`), `wedge` (`GeoRing.to_polygon().centroid`), and for the
+# members of a multi-shape `meq` / `mheq` / `mkey` (`==`, hash equality and hash key of two members: the dispatch over the
+# single-shape instances of this unit).
+
+def eq_unit():
+    src = py2lean.Sources([_repo('structures.py'), _repo('coordinates.py'), _repo('_base.py'), _repo('multistructures.py')])
+    types = {'CoordV': 'GV.Obj.Coord', 'PointV': 'GV.Obj.PointR', 'LineV': 'GV.Obj.LineR', 'BoxV': 'GV.Obj.BoxR',
+             'CircleV': 'GV.Obj.CircleR', 'EllipseV': 'GV.Obj.EllipseR', 'RingV': 'GV.Obj.RingR', 'PolyV': 'GV.Obj.PolyR',
+             'HoleV': 'GV.Obj.Hole', 'MultiV': 'GV.Obj.Multi', 'MPointV': 'GV.Obj.Multi', 'MemberV': 'GV.Obj.Shape',
+             'OtherV': 'Unit', 'MKindV': 'GV.Obj.MKind', 'SKeyV': 'GV.Obj.SKey', 'WedgeV': 'GV.Obj.Coord'}
+    for k, v in types.items():
+        py2lean.LEAN_TYPE.setdefault(k, v)
+    prod = py2lean.mk_prod
+    CK = prod(['R', 'R', 'Opt R'])            # (longitude, latitude, z)
+    DK = 'Opt Pair Dt'                        # the key of `self.dt`
+    single = [('Coordinate', 'coord', 'CoordV', CK),
+              ('GeoPoint', 'point', 'PointV', prod([CK, DK])),
+              ('GeoBox', 'box', 'BoxV', prod([CK, CK, DK])),
+              ('GeoCircle', 'circle', 'CircleV', prod([CK, 'R', DK])),
+              ('GeoEllipse', 'ellipse', 'EllipseV', prod([CK, 'R', 'R', 'R', DK])),
+              ('GeoRing', 'ring', 'RingV', prod([CK, 'R', 'R', 'R', 'R', DK])),
+              ('GeoLineString', 'line', 'LineV', prod(['List ' + CK, DK])),
+              ('GeoPolygon', 'poly', 'PolyV', prod(['List ' + CK, DK]))]
+    insts = []
+    for cls, nm, t, key in single:
+        if cls in ('GeoCircle', 'GeoEllipse', 'GeoRing'):
+            insts.append(Inst(f'{cls}.centroid', nm + 'Centroid', [('self', t)], 'CoordV'))
+        insts.append(Inst(f'{cls}.__eq__', nm + 'Eq', [('self', t), ('other', t)], 'Except Bool' if cls == 'GeoPolygon' else 'Bool'))
+        insts.append(Inst(f'{cls}.__eq__', nm + 'EqOther', [('self', t), ('other', 'OtherV')], 'Bool',
+                          doc='`other` is not an instance of the class'))
+        insts.append(Inst(f'{cls}.__hash__', nm + 'Hash', [('self', t)], key, doc='the key of the value handed to hash()'))
+    insts += [
+        Inst('MultiShapeBase.__eq__', 'multiEq', [('self', 'MultiV'), ('other', 'MultiV')], 'Opt Bool', doc='`none` is NotImplemented'),
+        Inst('MultiShapeBase.__eq__', 'multiEqOther', [('self', 'MultiV'), ('other', 'OtherV')], 'Opt Bool',
+             doc='`other` is not a multi-shape; `none` is NotImplemented'),
+        Inst('MultiShapeBase.__hash__', 'multiHash', [('self', 'MultiV')], prod(['List SKeyV', DK]), doc='the key of the value handed to hash()'),
+        Inst('MultiGeoPoint.__hash__', 'mpointHash', [('self', 'MPointV')], 'List SKeyV', doc='the key of the value handed to hash()'),
+    ]
+    # what the unit assumes about the class layout: the multi-shape classes take `__eq__` from MultiShapeBase, and only
+    # MultiGeoPoint has a `__hash__` of its own
+    for q in ('MultiGeoPoint.__eq__', 'MultiGeoLineString.__eq__', 'MultiGeoPolygon.__eq__', 'MultiGeoLineString.__hash__',
+              'MultiGeoPolygon.__hash__', 'PolygonBase.__eq__', 'PolygonBase.__hash__', 'SingleShapeBase.__eq__',
+              'SingleShapeBase.__hash__', 'BaseShape.__eq__', 'BaseShape.__hash__'):
+        if q in src.defs:
+            raise Unsupported(f'`{q}` is defined: the unit assumes it is inherited')
+
+    def isinstance_hook(typ):
+        own = {'CoordV': 'Coordinate', 'PointV': 'GeoPoint', 'LineV': 'GeoLineString', 'BoxV': 'GeoBox', 'CircleV': 'GeoCircle',
+               'EllipseV': 'GeoEllipse', 'RingV': 'GeoRing', 'PolyV': 'GeoPolygon'}
+        if typ in own:
+            return {own[typ]}
+        return {'MultiV': {'MultiShapeBase'}, 'MPointV': {'MultiShapeBase', 'MultiGeoPoint'}, 'OtherV': set()}.get(typ)
+
+    dt = ('{}.dt', 'Opt TI')
+    holes = ('{}.holes', 'List HoleV')
+    attr = {('CoordV', 'latitude'): ('{}.lat', 'R'), ('CoordV', 'longitude'): ('{}.lon', 'R'), ('CoordV', 'z'): ('{}.z', 'Opt R'),
+            ('PointV', 'coordinate'): ('{}.coordinate', 'CoordV'), ('PointV', 'dt'): dt,
+            ('LineV', 'vertices'): ('{}.vertices', 'List CoordV'), ('LineV', 'dt'): dt,
+            ('BoxV', 'nw_bound'): ('{}.nw', 'CoordV'), ('BoxV', 'se_bound'): ('{}.se', 'CoordV'), ('BoxV', 'holes'): holes, ('BoxV', 'dt'): dt,
+            ('CircleV', 'center'): ('{}.center', 'CoordV'), ('CircleV', 'radius'): ('{}.radius', 'R'),
+            ('CircleV', 'holes'): holes, ('CircleV', 'dt'): dt,
+            ('EllipseV', 'center'): ('{}.center', 'CoordV'), ('EllipseV', 'semi_major'): ('{}.major', 'R'),
+            ('EllipseV', 'semi_minor'): ('{}.minor', 'R'), ('EllipseV', 'rotation'): ('{}.rotation', 'R'),
+            ('EllipseV', 'holes'): holes, ('EllipseV', 'dt'): dt,
+            ('RingV', 'center'): ('{}.center', 'CoordV'), ('RingV', 'inner_radius'): ('{}.inner', 'R'),
+            ('RingV', 'outer_radius'): ('{}.outer', 'R'), ('RingV', 'angle_min'): ('{}.amin', 'R'),
+            ('RingV', 'angle_max'): ('{}.amax', 'R'), ('RingV', 'holes'): holes, ('RingV', 'dt'): dt,
+            ('PolyV', 'outline'): ('{}.outline', 'List CoordV'), ('PolyV', 'holes'): holes, ('PolyV', 'dt'): dt,
+            ('MultiV', 'geoshapes'): ('{}.members', 'List MemberV'), ('MultiV', 'dt'): dt,
+            ('MPointV', 'geoshapes'): ('{}.members', 'List MemberV'), ('MPointV', 'dt'): dt,
+            ('WedgeV', 'centroid'): ('{}', 'CoordV')}
+    abstract = {('HoleV', 'bounding_coords', ()): ('bc {0}', 'List CoordV'),
+                ('RingV', 'to_polygon', ()): ('wedge {0}', 'WedgeV')}
+    classes = {t: cls for cls, _nm, t, _k in single}
+    classes.update({'MultiV': 'MultiShapeBase', 'MPointV': 'MultiGeoPoint', 'TI': 'TimeInterval'})
+    return Unit('SrcEq', src, 'GV.Src.Eq', ['GeoVerif.Gen.SrcTime', 'GeoVerif.Model.ObjRec', 'GeoVerif.Model.PyPrelude'], insts,
+                classes, attr_types=attr, abstract=abstract,
+                header='-- source files: ' + ', '.join(os.path.basename(q) for q in src.paths),
+                hooks={'isinstance': isinstance_hook, 'always_truthy': ('TI', 'Dt'), 'value_semantics': True, 'hash_keys': True, 'operand_boolop': True, 'prune_loop_params': True,
+                       'eq_abstract': {'HoleV': 'heq', 'MemberV': 'meq'}, 'hasheq_abstract': {'MemberV': 'mheq'},
+                       'key_abstract': {'MemberV': ('mkey', 'SKeyV')},
+                       'constants': {'NotImplemented': ('()', 'None')},
+                       'type_of': {'MultiV': ('{}.kind', 'MKindV')}, 'identity_types': ('MKindV',)},
+                ctx_params=[('heq', 'GV.Obj.Hole → GV.Obj.Hole → Bool'), ('bc', 'GV.Obj.Hole → List GV.Obj.Coord'),
+                            ('wedge', 'GV.Obj.RingR → GV.Obj.Coord'), ('meq', 'GV.Obj.Shape → GV.Obj.Shape → Bool'),
+                            ('mheq', 'GV.Obj.Shape → GV.Obj.Shape → Bool'), ('mkey', 'GV.Obj.Shape → GV.Obj.SKey')],
+                externals=_time_externals())
+
+
 UNITS = {'SrcTime': time_unit, 'SrcBase': base_unit, 'SrcMulti': multi_unit, 'SrcColl': coll_unit, 'SrcPip': pip_unit,
          'SrcMember': member_unit, 'SrcTrack': track_unit, 'SrcRelate': relate_unit, 'SrcCoord': coord_unit,
          'SrcCurved': curved_unit, 'SrcCalc': calc_unit}
@@ -1296,6 +1392,7 @@ UNITS['SrcHullMulti'] = hullmulti_unit
 UNITS['SrcBounds'] = bounds_unit
 UNITS['SrcMut'] = mut_unit
 UNITS['SrcGeohash'] = geohash_unit
+UNITS['SrcEq'] = eq_unit
 
 
 def render(name):
